@@ -560,7 +560,38 @@ pub fn k_efi_iter_provided_methods() {
     assert!(tag.memory_areas().count() == k);
     assert!(tag.memory_areas().skip(k).next().is_none());
     assert!(tag.memory_areas().last().is_some() == (k > 0));
+    // overshooting with nth leaves an exhausted iterator that reports 0 remaining
+    let mut it = tag.memory_areas();
+    assert!(it.nth(k + 1).is_none());
+    assert!(it.len() == 0 && it.next().is_none());
     kani::cover!(k == 3 && n == 3);
+}
+
+// ---- C18: len() with a stride larger than the descriptor (d = 48 / 56) and up to 6 entries:
+// remaining length == items still to come (only lengths and addresses, no field decoding)
+#[kani::proof]
+#[kani::unwind(9)]
+pub fn k_efi_iter_len_wide_stride() {
+    let bytes = multiboot2_common::test_utils::AlignedBytes::new(kani::any::<[u8; 360]>());
+    let b = &bytes.0;
+    kani::assume(dst_le32(b, 0) == 17 && dst_le32(b, 12) == 1);
+    let d = dst_le32(b, 8) as usize;
+    kani::assume(d == 48 || d == 56);
+    let k: usize = kani::any();
+    kani::assume(k <= 6);
+    let size = 16 + k * d;
+    kani::assume(dst_le32(b, 4) as usize == size);
+    let tag = dst_generic(&b[..dst_round8(size)]).cast::<EFIMemoryMapTag>();
+    let mut it = tag.memory_areas();
+    let mut i = 0;
+    while i < k {
+        assert!(it.len() == k - i);
+        let desc = it.next().unwrap();
+        assert!(core::ptr::addr_of!(*desc).cast::<u8>() as usize == b.as_ptr() as usize + 16 + i * d);
+        i += 1;
+    }
+    assert!(it.len() == 0 && it.next().is_none());
+    kani::cover!(k == 6 && d == 48);
 }
 
 // ---- END dst section
